@@ -142,7 +142,16 @@ def check_case(case) -> Result:
 
     ref = make_ref()
     backend = SVBackend(seq, config=cfg)
-    res = cut(backend.run)
+    try:
+        res = cut(backend.run)
+    except Exception as e:  # noqa: BLE001
+        inner = getattr(e, "exc", None)
+        if isinstance(inner, RecursionError) and "did not converge" in str(inner):
+            # the documented, honest refusal of C07 (dt*|generator| too large for the allowed Krylov dimension, e.g. the
+            # detuning of an SLM mask with a long step): no result is returned, so nothing can be wrong; counted
+            r.discard = "krylov_exp refused: did not converge within the allowed dimension"
+            return r
+        raise
     if case.get("rerun"):
         res = cut(backend.run)
         r.label("second_run_of_the_same_backend")
@@ -158,17 +167,20 @@ def check_case(case) -> Result:
     r.label(f"n{n}", *[k.replace("_rate", "") for k in case["nm"] if k.endswith("_rate")],
             "eff_noise" if "eff_noise_opers" in case["nm"] else "no_eff", "slm" if seqc["slm"] else "noslm",
             "local" if seqc["local"] else "nolocal", "dmm" if seqc["dmm"] else "nodmm")
-    model = []
+    model = {}
 
-    def model_ref():
-        if not model:
+    def model_ref(faithful_expm):
+        """reference evolved with a harness model of the implementation's Krylov exponentiation (its stopping rule; with
+        faithful_expm also torch.linalg.matrix_exp for the projected matrix, as the implementation computes it)"""
+        if faithful_expm not in model:
             from pbt.oracles import krylov_model
 
             def step(A, v):
-                out, conv, _ = krylov_model.krylov_exp_prev_norm(A, v, case["ktol"], hermitian=False)
+                out, conv, _ = krylov_model.krylov_exp_prev_norm(A, v, case["ktol"], hermitian=False,
+                                                                 expm=krylov_model.torch_expm if faithful_expm else None)
                 return out
-            model.append(make_ref(step))
-        return model[0]
+            model[faithful_expm] = make_ref(step)
+        return model[faithful_expm]
 
     def H_for(rf, k):
         return rf.H[k - 1] if k > 0 else rf.h_step(0)
@@ -186,12 +198,16 @@ def check_case(case) -> Result:
             sc = scale_of(k) if scale_of else 1.0
             err = float(np.max(np.abs(e2e.to_np(v) - want_of(ref, k)))) / sc
             if not err <= tol:
-                mr = model_ref()
-                merr = float(np.max(np.abs(e2e.to_np(v) - want_of(mr, k)))) / sc
+                m_faith = float(np.max(np.abs(e2e.to_np(v) - want_of(model_ref(True), k)))) / sc
+                m_rule = float(np.max(np.abs(e2e.to_np(v) - want_of(model_ref(False), k)))) / sc
                 detail = (f"{tag} t={float(t_rel):.6g}: error {err:.3e} > tol {tol:.3e} (ktol={case['ktol']:g}, steps={nsteps}, n={n}, "
-                          f"noise={list(case['nm'])}); distance to the stopping-rule model {merr:.3e}")
-                if merr <= 1e-9 + 1e-3 * err:
-                    r.fail("krylov_tolerance_not_met:explained_by_stopping_rule", detail)
+                          f"noise={list(case['nm'])}); distance to the faithful model (stopping rule + torch matrix_exp) {m_faith:.3e}, "
+                          f"to the stopping-rule model with an accurate exponential {m_rule:.3e}")
+                if m_faith <= 0.02 * err + 1e-13 * nsteps:
+                    if m_rule <= 0.1 * err:
+                        r.fail("krylov_tolerance_not_met:explained_by_stopping_rule", detail)
+                    else:
+                        r.fail("krylov_tolerance_not_met:explained_by_torch_matrix_exp_accuracy", detail)
                 else:
                     r.fail("differs_from_lindblad_reference:" + tag, detail)
                 return
